@@ -460,9 +460,11 @@ Proof.
   apply Local_bind; [local|]. intros du. destruct du; try solve [local].
   destruct (cands p) as [|c [|c' cs]]; cbv zeta.
   - destruct (Qle_bool _ _); [|apply Hr]. destruct (Qeq_bool _ _); [local|].
+    destruct (Qeq_bool _ _); [local|].
     apply Local_bind; [local|]. intros dc. destruct dc; local.
   - apply He.
   - destruct (Qle_bool _ _); [|apply Hr]. destruct (Qeq_bool _ _); [local|].
+    destruct (Qeq_bool _ _); [local|].
     apply Local_bind; [local|]. intros dc. destruct dc; local.
 Qed.
 
